@@ -11,6 +11,7 @@ import Driver.GenEventD
 import Driver.GenSessionD
 import Driver.GenBackoffD
 import Driver.GenResetD
+import Driver.GenRegistryD
 /-!
 Model driver: one case per input line `<OP> <args…>[\t<go output>]`, one output line
 `M=<model output>\tS=<specification output>` per case. Each group module handles its own ops.
@@ -21,7 +22,7 @@ trace rather than predict it.
 open Driver
 
 def handlers : List (String → List String → Option (String × String)) :=
-  [ParserD.handle, MessageD.handle, ReplayD.handle, JoeD.handle, ClientD.handle, ServerD.handle, GenD.handle, GenReplayD.handle, GenEventD.handle, GenSessionD.handle, GenBackoffD.handle, GenResetD.handle]
+  [ParserD.handle, MessageD.handle, ReplayD.handle, JoeD.handle, ClientD.handle, ServerD.handle, GenD.handle, GenReplayD.handle, GenEventD.handle, GenSessionD.handle, GenBackoffD.handle, GenResetD.handle, GenRegistryD.handle]
 
 def handle (line : String) : String :=
   let parts := line.splitOn "\t"
